@@ -177,7 +177,11 @@ def plain_idents():
     kw_prefix = st.tuples(st.text(alphabet="abcxyz_", min_size=1, max_size=4), st.sampled_from(KEYWORDS)).map("".join)
     kw_case = st.sampled_from(KEYWORDS).flatmap(
         lambda k: st.tuples(anycase(k), st.text(alphabet=IDCHARS, min_size=1, max_size=4)).map("".join))
-    return st.one_of(rnd, st.sampled_from(KEYWORDY), kw_suffix, kw_prefix, kw_case)
+    # names at the documented length limit (128 characters)
+    long_names = st.tuples(st.sampled_from("abX_"), st.sampled_from([100, 126, 127]),
+                           st.sampled_from(["a", "null", "Z9_", "true"])).map(
+        lambda p: (p[0] + p[2] * 200)[:p[1] + 1])
+    return st.one_of(rnd, rnd, st.sampled_from(KEYWORDY), kw_suffix, kw_prefix, kw_case, long_names)
 
 
 def is_bare_keyword(name):
